@@ -786,19 +786,26 @@ def oracle_tables(ctx, rng, n):
     import os
     import shutil
     for ci in range(n):
-        kinds = ["id-zero", "mixed", "valid", "id-negative", "hole", "id-beyond", "z-outside", "pin-data-no-pins"]
+        kinds = ["id-zero", "mixed", "valid", "low-fidelity-with-fuel", "id-negative", "hole", "id-beyond", "z-outside", "pin-data-no-pins"]
         kind = kinds[ci % len(kinds)]
         pos = [(1, 1)] + [p for p in gi.core_positions(2)[1:] if rng.random() < 0.5]
         if (kind in ("id-zero", "mixed") or rng.random() < 0.5) and (2, 6) not in pos:
             pos.append((2, 6))                       # the LAST position of the core is occupied
         case = gi.random_case(rng, positions=pos, n_types=1, gap_model=rng.choice(['flow', 'none']), length=0.05, flow_range=(1.0, 5.0))
+        if kind == "low-fidelity-with-fuel":
+            # an assembly type with a FuelModel that is modelled with the low-fidelity model: no pin temperatures are calculated, the
+            # summary tables and the post-processing have to cope with that
+            tn_ = list(case['types'])[0]
+            gi.make_low_fidelity(rng, case, tn_, model='simple')
+            case['types'][tn_]['FuelModel'] = dict(gap_thickness=0.0, clad_material='ht9', r_frac=[0.0, 0.33333, 0.66667],
+                                                   pu_frac=[0.2, 0.2, 0.2], zr_frac=[0.1, 0.1, 0.1], porosity=[0.25, 0.25, 0.25])
         gi.random_power(rng, case)
         L = case['core']['length']
         ids = [gi.position_index(a['ring'], a['pos']) for a in case['assignment']]
-        asm = {"valid": ids[:2], "id-zero": [0], "id-negative": [-1], "id-beyond": [99], "hole": [i for i in range(1, 8) if i not in ids][:1] or [99],
+        asm = {"valid": ids[:2], "low-fidelity-with-fuel": ids[:1], "id-zero": [0], "id-negative": [-1], "id-beyond": [99], "hole": [i for i in range(1, 8) if i not in ids][:1] or [99],
                "mixed": [0, ids[0]], "z-outside": ids[:1], "pin-data-no-pins": ids[:1]}[kind]
         z = [round(L * rng.uniform(0.2, 0.8), 4)] if kind != "z-outside" else [-0.01, 2 * L]
-        typ = "clad_od" if kind == "pin-data-no-pins" else rng.choice(["coolant_subchannel", "duct_mw"])
+        typ = "clad_od" if kind == "pin-data-no-pins" else ("duct_mw" if kind == "low-fidelity-with-fuel" else rng.choice(["coolant_subchannel", "duct_mw"]))
         tab = ("    [[AssemblyTables]]\n        [[[t1]]]\n            type = %s\n            assemblies = %s\n            axial_positions = %s\n"
                % (typ, ", ".join(map(str, asm)) + ("," if len(asm) == 1 else ""), ", ".join(map(str, z)) + ("," if len(z) == 1 else "")))
         d = str(ctx.work / ("tab%d" % ci))
@@ -915,7 +922,7 @@ def run(ctx):
         ctx.obligation("differential classification: Model.Accept agrees with the real reader on %d inputs" % len(reqs), bad == 0,
                        kind="correspondence", detail="disagreements %d" % bad)
     oracle_perturb(ctx, rng, 12 if ctx.thorough else 3, 14 if ctx.thorough else 6)
-    oracle_tables(ctx, rng, 40 if ctx.thorough else 5)
+    oracle_tables(ctx, rng, 45 if ctx.thorough else 9)
     ctx.nontrivial = ctx.evals
     ctx.traces = ctx.evals
     ctx.trusted += ["hand model of the numeric acceptance layer; the classification of which inputs are 'impossible' (the fault "
